@@ -193,6 +193,15 @@ func (w *World) Identities(r int) []Ident {
 	return nil // initializers have no resolvable identity
 }
 
+// HasAux: registration r also produces the auxiliary type A<r>.
+func (w *World) HasAux(r int) bool {
+	switch w.Regs[r].Form {
+	case IdMulti, IdResObj, IdResObjGroup2, IdMultiNamed, IdMultiGroup:
+		return true
+	}
+	return false
+}
+
 // PickWorld draws a world from symbolic selectors. forms / variants list the
 // admissible values (bounds of the harness).
 func PickWorld(n int, lifes, forms, variants []int) *World {
